@@ -841,9 +841,67 @@ def _c06_one(o, d, z):
     return None
 
 
+def _c06_mixed(seed):
+    """two observers at one place and different heights asked in one process, the first one
+    for a subset of the events only: a chain assembled from anything remembered per place
+    rather than per observer comes out of order"""
+    import zones
+    import astral.sun as sun
+    from astral import Observer, SunDirection
+    rng = random.Random(seed)
+    lat, lon = rng.uniform(-55.0, 55.0), rng.uniform(-180.0, 180.0)
+    d = datetime.date.fromordinal(rng.randint(693596 + 400, 767010 - 400))
+    z = zones.fixed(0)
+    high = rng.choice([rng.uniform(20000.0, 60000.0), (rng.uniform(500.0, 3000.0), rng.uniform(50.0, 400.0))])
+    elevs = [high, 0.0]
+    if rng.random() < 0.5:
+        elevs.reverse()
+    same_object = rng.random() < 0.4
+    o1 = Observer(lat, lon, elevs[0])
+    subset = rng.sample(["sun", "dawn6", "dawn12", "sunrise", "rise+6", "sunset", "dusk6", "dusk12"],
+                        rng.randint(1, 4))
+    for name in subset:
+        try:
+            if name == "sun":
+                sun.sun(o1, d)
+            elif name.startswith("dawn"):
+                sun.dawn(o1, d, int(name[4:]))
+            elif name.startswith("dusk"):
+                sun.dusk(o1, d, int(name[4:]))
+            elif name == "rise+6":
+                sun.time_at_elevation(o1, 6, d, SunDirection.RISING)
+            else:
+                getattr(sun, name)(o1, d)
+        except ValueError:
+            pass
+    if same_object:
+        o1.elevation = elevs[1]
+        o2 = o1
+    else:
+        o2 = Observer(lat, lon, elevs[1])
+    if isinstance(o2.elevation, tuple):
+        return None                 # KF-FEATURE: the tuple form's own order is a known finding
+    r = _c06_one(o2, d, z)
+    if r:
+        return {"clause": r, "mixed_seed": seed, "sequence": [
+            "Observer(%r, %r, %r): %s on %s" % (lat, lon, elevs[0], ", ".join(subset), d),
+            ("the same object with elevation = %r" if same_object else "a new Observer at the same place, elevation %r")
+            % (elevs[1],), "then the whole chain of events for it"]}
+    return None
+
+
 def search_C06(rng, deadline, broken):
     import gens
+    n = 0
     while time.time() < deadline:
+        n += 1
+        if n % 3 == 0:
+            try:
+                r = _c06_mixed(rng.randrange(1 << 40))
+            except Exception as exc:  # noqa: BLE001
+                r = {"clause": "raised %r" % (exc,)}
+            if r:
+                return r
         o, d, z = _sun_inputs(rng)
         if isinstance(o.elevation, tuple):
             o = gens.rand_observer(rng, tuples=False)     # KF-FEATURE: tuple form is a known finding
@@ -857,6 +915,8 @@ def search_C06(rng, deadline, broken):
 
 
 def replay_C06(fi):
+    if "mixed_seed" in fi:
+        return _c06_mixed(fi["mixed_seed"]) is None
     return _c06_one(_obs_from_descr(fi["observer"]), datetime.date.fromisoformat(fi["date"]),
                     _zone_from_descr(fi["zone"])) is None
 
@@ -1067,6 +1127,9 @@ def _c04_one(o, d, z, fn, dep, rising):
         return "reported %r although the sun stays below %.3f deg all day (max %.2f)" % (msg, target, hi)
     if lo - margin >= target and ("always below" in msg):
         return "reported %r although the sun stays above %.3f deg all day (min %.2f)" % (msg, target, lo)
+    if clear and ("always above" in msg or "always below" in msg):
+        return "reported %r although the sun's altitude ranges over %.2f..%.2f that day, on both sides of %.3f" % (
+            msg, lo, hi, target)
     return None
 
 
